@@ -64,8 +64,8 @@ def run(ck: Check) -> int:
             seen = set()
             for c in pool:
                 k = K9.key_of(c)
-                if k in seen or c['api'] == 'glob.glob-tree':
-                    continue
+                if k in seen or c['api'].endswith('-tree') or c['flags'] & w.G.REALPATH:
+                    continue        # file-system dependent calls: compared against the walker / matchReal models in C04-C06
                 seen.add(k)
                 api = K.API_BY_NAME[c['api']]
                 mo, _line = w.model(drv, api, c['pats'], None, c['flags'], 1000, c['isb'], K9.NAMES)
@@ -103,6 +103,18 @@ def run(ck: Check) -> int:
                 if not K9.same(v, fresh[k]):
                     c = dict(zip(('api', 'pats', 'flags', 'isb'), __import__('json').loads(k)))
                     fail('result in a fresh interpreter differs from the result with cleared caches', c, fresh[k], v)
+            # no history at all: the calls whose internal switches collide (REALPATH / MATCHBASE / translate vs compile),
+            # each in its own interpreter state
+            designed = [c for c in pool if c['flags'] & (w.G.REALPATH | w.G.MATCHBASE) or c['api'].endswith('-tree')]
+            if not ck.deep():
+                designed = designed[:500]
+            iso = K9.isolated_interpreters(designed, tree, 12)
+            sr.histogram['isolated-interpreter calls'] = len(iso)
+            for k, v in iso.items():
+                sr.evaluations += 1
+                if k in ref and not K9.same(ref[k], v):
+                    c = dict(zip(('api', 'pats', 'flags', 'isb'), __import__('json').loads(k)))
+                    fail('result after other calls (caches cleared) differs from the same call alone in a fresh interpreter', c, v, ref[k])
             w.W._compile.cache_clear()
             for h in range(nh):
                 hist = [R.choice(pool) for _ in range(400)]
@@ -131,6 +143,8 @@ def run(ck: Check) -> int:
                 for e in errs:
                     fail('a thread crashed', {'error': e}, 'no exception', e)
                 for c, got in res:
+                    if got['kind'].startswith('skip'):
+                        continue        # chdir-based call: not run on threads
                     sr.evaluations += 1
                     if not K9.same(got, ref[K9.key_of(c)]):
                         fail('a call on one of 8 concurrent threads differs from its single-threaded result', c, ref[K9.key_of(c)], got)
